@@ -19,8 +19,8 @@ RULE = ("coarsen leg: 18 bin tables (1-3 chromosomes with fewer/exactly/more bin
         "task while the file is open for writing, writes and tasks under the lock, no pending task at release, no deadlock); one "
         "real multiprocess.Pool(2) conformance run per configuration; chain leg: k1 then k2 == k1*k2, coarsen(merge) == "
         "merge(coarsen), same-file vs new-file destination. Non-trivial: >=2 pixels and >=1 group with 2 members. Distinct by construction.")
-BOUNDS = {"quick": "18 tables; chunksize {1,1e6} everywhere, {2,3,nnz} for k=2 symmetric; schedules: deviation bound 1",
-          "thorough": "chunksize {1,2,3,nnz,1e6} everywhere; schedules: deviation bound 2; all structured matrices on 8-bin tables"}
+BOUNDS = {"quick": "18 tables; chunksize {1,1e6} everywhere, {2,3,nnz} for k=2 symmetric; schedules: deviation bound 1; binsizes: every old bin size b and k in {2,3,5,7} with b*k <= 256 on 40 coarse bins + partial groups, chunksize {1e6, 97}",
+          "thorough": "chunksize {1,2,3,nnz,1e6} everywhere; schedules: deviation bound 2; all structured matrices on 8-bin tables; binsizes with b*k <= 1024"}
 ASSUMPTIONS = ["worker processes are explored through the Pool seam in one interpreter (tasks run on dill copies, in every order); "
                "OS-level timing between real processes is covered only by the single real-pool conformance run",
                "values are small integers / dyadic rationals: aggregates are exact"]
@@ -80,6 +80,14 @@ def units(tier):
     yield {"leg": "limit"}
     yield {"leg": "legacy"}
     yield {"leg": "cli"}
+    # every old bin size b and factor k with b*k <= 256 (thorough 1024) on a chromosome of 40 coarse bins: the re-binning arithmetic
+    # (start coordinate -> coarse bin) must be exact at every multiple of every bin size, not only at the sizes 1..3 used elsewhere
+    top = 1024 if th else 256
+    for k in (2, 3, 5, 7):
+        bs = list(range(1, top // k + 1))
+        step = 8 if th else 6
+        for lo in range(0, len(bs), step):
+            yield {"leg": "binsizes", "k": k, "bs": bs[lo:lo + step]}
 
 
 def _source(ti, symm, tag, cells):
@@ -392,6 +400,38 @@ def _seqvar(R, unit, only):
             scratch.rm(out)
 
 
+def _binsizes(R, unit, only):
+    import cooler
+    k = unit["k"]
+    for b in unit["bs"]:
+        inner = {"k": k, "binsize": b}
+        if only is not None and only != inner:
+            continue
+        n1, n2 = 40 * k + 1, 3 * k          # chromosome 1: 40 full groups + one fine bin; chromosome 2: 3 groups, last fine bin shorter
+        bins = [("chr2", i * b, (i + 1) * b) for i in range(n1)] + [("chr10", i * b, (i + 1) * b if i < n2 - 1 else (i + 1) * b - (b > 1)) for i in range(n2)]
+        n = len(bins)
+        cells = [(i, i) for i in range(n)] + [(i, n - 1) for i in range(0, n - 1)] + [(0, j) for j in range(1, n - 1)]
+        pix = {c: {"count": 1 + (c[0] * 7 + c[1]) % 5} for c in cells}
+        R.add("states")
+        R.add("traces")
+        R.ev(1, 1)
+        R.add("transitions")
+        R.cls("binsizes")
+        src, out = scratch.fresh(), scratch.fresh()
+        try:
+            cooler.create_cooler(src, build.bins_df(bins), fx.frame(pix, ("count",)), ordered=True)
+            for cs in (10 ** 6, 97):
+                try:
+                    cooler.coarsen_cooler(src, out, k, chunksize=cs)
+                except Exception as e:
+                    R.mismatch("coarsen-raises:" + type(e).__name__, {**inner, "chunksize": cs}, f"{e!s:.300}")
+                    continue
+                _judge(R, {**inner, "chunksize": cs}, out, bins, pix, k, ("count",), None)
+        finally:
+            scratch.rm(src)
+            scratch.rm(out)
+
+
 def _limit(R, only):
     """block sums at and beyond the limits of the stored value dtype: the call may raise, or the stored value must be exact"""
     import cooler
@@ -565,6 +605,8 @@ def run(unit, R, tier, only=None):
         _cli(R, only)
     elif leg == "seqvar":
         _seqvar(R, unit, only)
+    elif leg == "binsizes":
+        _binsizes(R, unit, only)
     elif leg == "limit":
         _limit(R, only)
     elif leg == "legacy":
